@@ -459,4 +459,4 @@ def replay(art):
         want = reference(op, w.annotated and op[0] != 'annotate', len(op) > 1 and op[1] in w.configured and op[0] != 'configure')
         if obs != want:
             return [{'history': c['history'], 'op': list(op), 'after_history': repr(obs)[:300], 'fresh': repr(want)[:300]}]
-    return [v['detail'] for v in st.viol] or None
+    return runner.fresh_details('C18', st) or None
